@@ -14,7 +14,8 @@
 (*                        tag = unique label of this reference             *)
 (*   obj                  id = object ID, tag = unique label (= the name   *)
 (*                        of its marker property where it has one),        *)
-(*                        props = <<[name, req, type]>>                    *)
+(*                        props = <<[name, req, type, def]>>; ns = "" for  *)
+(*                        map-based objects, else the struct layout        *)
 (*   scope                id = root ID, tag = unique label, sub = objects  *)
 (*                                                                         *)
 (* The state machine: link[ref tag] \in {None} \cup object tags; actions   *)
@@ -40,7 +41,11 @@ OneOf(ms) == Mk("oneof", "", "", "", ms, <<>>)
 Ref(tag, ns, id) == Mk("ref", id, ns, tag, <<>>, <<>>)
 Obj(id, tag, props) == Mk("obj", id, "", tag, <<>>, props)
 Scope(tag, root, objs) == Mk("scope", root, "", tag, objs, <<>>)
-Prop(name, req, type) == [name |-> name, req |-> req, type |-> type]
+\* def: the declared default of the property ("" = none; otherwise the text of a string default)
+Prop(name, req, type) == [name |-> name, req |-> req, type |-> type, def |-> ""]
+PropD(name, type, def) == [name |-> name, req |-> FALSE, type |-> type, def |-> def]
+\* struct-mapped objects carry the name of their Go struct layout in the (otherwise unused) ns field
+SObj(id, tag, layout, props) == Mk("obj", id, layout, tag, <<>>, props)
 Marker(tag) == Prop(tag, FALSE, Leaf)
 DiscField == "_t"
 Keys == <<"k1", "k2", "k3", "k4">>
@@ -185,6 +190,17 @@ Lexical ==
         /\ s.tag \in cov => (link[s.tag] = Resolve(s) /\ link[s.tag] # None)
 
 ExtStable == \A s \in ExtSites : link[s.tag] = Nearest(s)
+
+\* A tree rebuilt from its own description (SelfSerialize -> UnserializeScope) has had no scope constructed
+\* separately: all it gets is ONE ApplySelf on the root, which must reach every nested scope.  Its self
+\* references are then linked exactly like those of the tree constructed scope by scope.
+RebuiltLink ==
+    StepLink([g \in DOMAIN link |-> IF \E s \in ix.esites : s.tag = g THEN link[g] ELSE None],
+             ix.upd[Act("self", tree.tag, "", "")])
+RebuiltSame ==
+    built = ix.tscopes =>
+        \A s \in TreeSites : IF s.ns = "" THEN RebuiltLink[s.tag] = link[s.tag] /\ link[s.tag] = Nearest(s)
+                              ELSE RebuiltLink[s.tag] = None
 
 \* an application changes only references of its namespace below the scope it was applied to
 OtherNamespacesUntouched ==
@@ -364,6 +380,9 @@ Uniform ==
     /\ \A n \in Namespaces : Cardinality({tab[s.tag] : s \in {x \in TreeSites : x.ns = n}}) = 1
 NsTab == [n \in Namespaces |-> tab[(CHOOSE s \in TreeSites : s.ns = n).tag]]
 ObjFn == ix.objs
+
+\* the input universe and Unser below speak about map-based objects without defaults only
+MapBased == \A o \in ObjsIn(tree) : o.ns = "" /\ \A i \in DOMAIN o.props : o.props[i].def = ""
 
 Raws(d) == LET R == RLink(link, ObjFn) IN Good(tree, d, tree, R) \cup Probe(tree, d, tree, R)
 
